@@ -287,6 +287,35 @@ inline EncCfg mesh_cfg(int method_kind, int speed) {
   return c;
 }
 
+// Sub-set |mask| of the 2*W*H triangles of a triangulated W x H cell grid (positions on the integer lattice).
+// diag 0: every cell cut along (x,y)-(x+1,y+1); 1: alternating diagonals (checkerboard); triangle 2*cell+0/1.
+// Holes, single triangles, several components and non-manifold contacts at vertices all occur.
+inline GeomDef tri_subset_mesh(int W, int H, int diag, uint64_t mask, bool int_positions = false) {
+  GeomDef g;
+  g.is_mesh = true;
+  g.num_points = (W + 1) * (H + 1);
+  for (int y = 0; y < H; ++y)
+    for (int x = 0; x < W; ++x) {
+      const int cell = y * W + x;
+      const int a = y * (W + 1) + x, b = a + 1, c = a + W + 1, e = c + 1;
+      const bool alt = diag == 1 && ((x + y) & 1);
+      if ((mask >> (2 * cell)) & 1) g.faces.push_back(alt ? std::array<int, 3>{a, b, c} : std::array<int, 3>{a, b, e});
+      if ((mask >> (2 * cell + 1)) & 1) g.faces.push_back(alt ? std::array<int, 3>{b, e, c} : std::array<int, 3>{a, e, c});
+    }
+  AttDef pos;
+  pos.type = GeometryAttribute::POSITION;
+  pos.nc = 3;
+  pos.uid = 0;
+  pos.dt = int_positions ? DT_INT32 : DT_FLOAT32;
+  for (int i = 0; i < g.num_points; ++i) {
+    const int x = i % (W + 1), y = i / (W + 1);
+    if (int_positions) pos.entries.push_back(bytes_of(std::vector<int32_t>{x, y, (x * x + 3 * y) % 4}));
+    else pos.entries.push_back(bytes_of(std::vector<float>{(float)x, (float)y, ((x * x + 3 * y) % 4) * 0.5f}));
+  }
+  g.atts = {pos};
+  return g;
+}
+
 inline int stream_geometry_type(const Bytes &b) { return b.size() > 7 ? b[7] : -1; }
 inline int stream_method(const Bytes &b) { return b.size() > 8 ? b[8] : -1; }
 
